@@ -37,6 +37,10 @@ type Inner struct {
 	// it is shown; the decrypted connection is intact and is used on.
 	Form   string `json:"form"`
 	Hijack bool   `json:"hijack,omitempty"` // the request modifier hijacks on this request
+	// HijackEarly (with Hijack): the first bytes meant for the hijacker (the
+	// first frame of the protocol switched to) are sent together with the request
+	// head, in one write, instead of after the hijacker's greeting.
+	HijackEarly bool `json:"hijack_early,omitempty"`
 	// MarkInsecure: the request modifier calls Session.MarkInsecure() on this request.
 	MarkInsecure bool `json:"mark_insecure,omitempty"`
 	// CloseDelimited (last request of the connection only): the origin answers
@@ -85,6 +89,15 @@ type Case struct {
 	Before []int `json:"before,omitempty"`
 	// OriginDelayMs: the origin takes this long over every response.
 	OriginDelayMs int `json:"origin_delay_ms,omitempty"`
+	// The case's own CONNECT: protocol version ("" = 1.1, "1.0"), its Connection
+	// header ("", "close", "keep-alive"), a Proxy-Connection header ("",
+	// "keep-alive", "close"), and what the request modifier does to it: "" =
+	// nothing, "skip" = ctx.SkipRoundTrip() (an unfiltered skip.RoundTrip, the
+	// usual way to stub an https origin), "mutate" = changes its headers.
+	ConnectProto     string `json:"connect_proto,omitempty"`
+	ConnectConn      string `json:"connect_conn,omitempty"`
+	ConnectProxyConn string `json:"connect_proxy_conn,omitempty"`
+	ConnectMod       string `json:"connect_mod,omitempty"`
 }
 
 // splitConn sends the first byte of its first Write on its own.
@@ -127,6 +140,7 @@ type probe struct {
 	mu      sync.Mutex
 	calls   []seen
 	rewrite bool
+	connMod string
 }
 
 func (p *probe) ModifyRequest(req *http.Request) error {
@@ -134,6 +148,17 @@ func (p *probe) ModifyRequest(req *http.Request) error {
 	s := seen{id: req.Header.Get("X-Verif-Id"), method: req.Method, scheme: req.URL.Scheme, urlHost: req.URL.Host, host: req.Host, hasTLS: req.TLS != nil}
 	if req.TLS != nil {
 		s.tlsDone, s.tlsSNI = req.TLS.HandshakeComplete, req.TLS.ServerName
+	}
+	if req.Method == "CONNECT" && s.id == "connect" && ctx != nil {
+		switch p.connMod {
+		case "skip":
+			ctx.SkipRoundTrip()
+		case "mutate":
+			req.Header.Del("Proxy-Connection")
+			req.Header.Del("Connection")
+			req.Header.Set("X-Seen-By", "probe")
+			req.Header.Set("User-Agent", "mutated/1.0")
+		}
 	}
 	if p.rewrite && req.Method == "CONNECT" {
 		req.URL.Host = "rewritten.test:443"
@@ -244,7 +269,7 @@ func runOnce(c Case, T time.Duration) (v kit.Verdict) {
 	if err != nil {
 		return kit.Failf("C05/harness/mitm", "%v", err)
 	}
-	pb := &probe{rewrite: c.RewriteConnect}
+	pb := &probe{rewrite: c.RewriteConnect, connMod: c.ConnectMod}
 	p := martian.NewProxy()
 	p.SetTimeout(60 * time.Second)
 	if c.TimeoutMs > 0 {
@@ -391,7 +416,18 @@ func runOnce(c Case, T time.Duration) (v kit.Verdict) {
 			}
 		}
 		conn.SetWriteDeadline(time.Now().Add(5 * time.Second))
-		fmt.Fprintf(conn, "CONNECT %s HTTP/1.1\r\nHost: %s\r\nX-Verif-Id: connect\r\n\r\n", authority, authority)
+		proto := "1.1"
+		if c.ConnectProto != "" {
+			proto = c.ConnectProto
+		}
+		extra := ""
+		if c.ConnectConn != "" {
+			extra += "Connection: " + c.ConnectConn + "\r\n"
+		}
+		if c.ConnectProxyConn != "" {
+			extra += "Proxy-Connection: " + c.ConnectProxyConn + "\r\n"
+		}
+		fmt.Fprintf(conn, "CONNECT %s HTTP/%s\r\nHost: %s\r\nX-Verif-Id: connect\r\n%s\r\n", authority, proto, authority, extra)
 		conn.SetReadDeadline(time.Now().Add(T))
 		res, err := http.ReadResponse(br, &http.Request{Method: "CONNECT"})
 		if err != nil || res.StatusCode != 200 {
@@ -483,6 +519,11 @@ func runOnce(c Case, T time.Duration) (v kit.Verdict) {
 			sb.WriteString("X-Verif-Close-Delimited: 1\r\n")
 		}
 		sb.WriteString("\r\n")
+		hs := "hijack"
+		if in.Hijack && in.HijackEarly {
+			hs = "hijack-with-bytes-behind-the-request-head"
+			sb.WriteString("PING-" + id + "\n")
+		}
 		sents = append(sents, sent{id, in.Form, in.Hijack, wantHost})
 		conn.SetWriteDeadline(time.Now().Add(5 * time.Second))
 		if _, err := conn.Write([]byte(sb.String())); err != nil {
@@ -497,8 +538,10 @@ func runOnce(c Case, T time.Duration) (v kit.Verdict) {
 			if err == nil && string(buf[:n]) == marker {
 				// and the other direction: what the client sends now reaches the hijacker
 				echo := "ECHO-PING-" + id + "\n"
-				conn.SetWriteDeadline(time.Now().Add(5 * time.Second))
-				conn.Write([]byte("PING-" + id + "\n"))
+				if !in.HijackEarly {
+					conn.SetWriteDeadline(time.Now().Add(5 * time.Second))
+					conn.Write([]byte("PING-" + id + "\n"))
+				}
 				ebuf := make([]byte, len(echo))
 				conn.SetReadDeadline(time.Now().Add(T))
 				en, eerr := io.ReadFull(br, ebuf)
@@ -507,7 +550,7 @@ func runOnce(c Case, T time.Duration) (v kit.Verdict) {
 					if netkit.IsTimeout(eerr) {
 						class = "timeout-hijacker-echo"
 					}
-					v.Addf("C05/"+m+"/hijack/"+class, "the client sent a line after the hijack; the hijacker was to echo it through the connection it was handed, the client read %q (%v)", ebuf[:en], eerr)
+					v.Addf("C05/"+m+"/"+hs+"/"+class, "the client sent a line for the hijacker (together with the request head: %v); the hijacker was to echo it through what Hijack handed it, the client read %q (%v)", in.HijackEarly, ebuf[:en], eerr)
 				}
 			}
 			if err != nil || string(buf[:n]) != marker {
@@ -515,7 +558,7 @@ func runOnce(c Case, T time.Duration) (v kit.Verdict) {
 				if netkit.IsTimeout(err) {
 					class = "timeout-hijacker-bytes"
 				}
-				v.Addf("C05/"+m+"/hijack/"+class, "the hijacker wrote %q on the connection it was handed; through its %s session the client read %q (%v)", marker, map[bool]string{true: "cleartext", false: "TLS"}[c.PlainInside], buf[:n], err)
+				v.Addf("C05/"+m+"/"+hs+"/"+class, "the hijacker wrote %q on the connection it was handed; through its %s session the client read %q (%v)", marker, map[bool]string{true: "cleartext", false: "TLS"}[c.PlainInside], buf[:n], err)
 			}
 			hijacked = true
 			break
@@ -692,6 +735,7 @@ func genCase(t *rapid.T) Case {
 		in := Inner{Form: rapid.SampledFrom(forms).Draw(t, "form")}
 		if rapid.IntRange(0, 11).Draw(t, "hijack") == 0 {
 			in.Hijack = true
+			in.HijackEarly = rapid.Bool().Draw(t, "hijack_early")
 		} else if !c.PlainInside && rapid.IntRange(0, 7).Draw(t, "mark_insecure") == 0 {
 			in.MarkInsecure = true
 		}
@@ -716,6 +760,12 @@ func genCase(t *rapid.T) Case {
 			inner = append(inner, in)
 		}
 		c.Inner = inner
+	}
+	if !transparent {
+		c.ConnectProto = rapid.SampledFrom([]string{"", "", "", "", "1.0"}).Draw(t, "connect_proto")
+		c.ConnectConn = rapid.SampledFrom([]string{"", "", "", "close", "keep-alive"}).Draw(t, "connect_conn")
+		c.ConnectProxyConn = rapid.SampledFrom([]string{"", "", "", "keep-alive", "close"}).Draw(t, "connect_proxy_conn")
+		c.ConnectMod = rapid.SampledFrom([]string{"", "", "", "skip", "mutate"}).Draw(t, "connect_mod")
 	}
 	if !transparent && rapid.IntRange(0, 3).Draw(t, "before") == 0 {
 		c.Before = rapid.SliceOfN(rapid.IntRange(0, 2), 1, 2).Draw(t, "before_stages")
@@ -776,6 +826,18 @@ func classes(c Case) []string {
 	if c.OriginDelayMs > 0 {
 		out = append(out, "slow-origin")
 	}
+	if c.ConnectProto == "1.0" {
+		out = append(out, "connect-http-1.0")
+	}
+	if c.ConnectConn != "" {
+		out = append(out, "connect-connection-"+c.ConnectConn)
+	}
+	if c.ConnectProxyConn != "" {
+		out = append(out, "connect-with-proxy-connection")
+	}
+	if c.ConnectMod != "" {
+		out = append(out, "modifier-on-connect-"+c.ConnectMod)
+	}
 	if c.PlainInside && c.Listener == "tls-connect" {
 		out = append(out, "cleartext-tunnel-carried-by-a-tls-connection")
 	}
@@ -787,6 +849,9 @@ func classes(c Case) []string {
 		set["form-"+in.Form] = true
 		if in.Hijack {
 			set["hijack"] = true
+		}
+		if in.Hijack && in.HijackEarly {
+			set["hijack-with-bytes-behind-the-request-head"] = true
 		}
 		if in.MarkInsecure {
 			set["modifier-marks-session-insecure"] = true
